@@ -79,7 +79,13 @@ def build_interp_campaign(tier, sd):
         fam["E(%d,%d)" % (n, m)] = {"enumerated": total, "charts": taken, "exhaustive": taken == total,
                                     "maxword": maxlen}
 
-    if tier == "quick":
+    if tier == "mini":
+        add_E(1, 1, 1.0, 2)
+        add_E(2, 1, 1.0, 2)
+        add_E(3, 1, 0.2, 2)
+        add_E(2, 2, 0.05, 2, tl=True)
+        nrand = 150
+    elif tier == "quick":
         add_E(1, 0, 1.0, 1)
         add_E(1, 1, 1.0, 3)
         add_E(2, 0, 1.0, 1)
@@ -174,7 +180,7 @@ def run_campaign(cp, workdir, engines=("large", "fast"), nshards=NCPU, maxsteps=
 
     # judge: Trace_Step per (shard, engine); Lockstep per shard (main + raw)
     cfgp = os.path.join(workdir, "Trace_Step.cfg")
-    write_cfg(cfgp, ["SPECIFICATION TraceSpec", "CONSTANT Charts <- ChartsFromFile",
+    write_cfg(cfgp, ["SPECIFICATION TraceSpec",
                      "CONSTANT Variants = {%s}" % ",".join('"%s"' % v for v in variants),
                      "CHECK_DEADLOCK FALSE", "POSTCONDITION Consumed"])
     jobs = []
@@ -229,6 +235,71 @@ def run_campaign(cp, workdir, engines=("large", "fast"), nshards=NCPU, maxsteps=
     with open(os.path.join(workdir, "result.json"), "w") as f:
         json.dump(result, f)
     return result
+
+
+def rejudge(workdir, engine, case_ids, variants, tag):
+    """judge only the given cases of one engine again under another variant set;
+    returns the set of case ids that still produce a C01 verdict"""
+    case_ids = set(case_ids)
+    sub = os.path.join(workdir, "rejudge.%s.%s.ndjson" % (engine, tag))
+    with open(sub, "w") as out:
+        for fn in sorted(os.listdir(workdir)):
+            if not fn.endswith(".%s.ndjson" % engine) or not fn.startswith("s"):
+                continue
+            keep = False
+            with open(os.path.join(workdir, fn)) as f:
+                for line in f:
+                    if line.startswith('{"k":"reset"'):
+                        keep = json.loads(line)["case"] in case_ids
+                    if keep:
+                        out.write(line)
+    cfgp = os.path.join(workdir, "Trace_Step.%s.cfg" % tag)
+    write_cfg(cfgp, ["SPECIFICATION TraceSpec",
+                     "CONSTANT Variants = {%s}" % ",".join('"%s"' % v for v in variants),
+                     "CHECK_DEADLOCK FALSE", "POSTCONDITION Consumed"])
+    md = os.path.join(workdir, "meta.rejudge.%s.%s" % (engine, tag))
+    cmd = tlc_cmd("Trace_Step.tla", cfgp, md)
+    (rc, out), = run_parallel([cmd], env={"CHARTS": os.path.join(workdir, "charts.ndjson"), "TRACE": sub})
+    p = parse_tlc(out)
+    shutil.rmtree(md, ignore_errors=True)
+    if not p["ok"] or p["error"]:
+        raise RuntimeError("rejudge failed: " + out[-1500:])
+    os.remove(sub)
+    return set(v["case"] for v in p["verdicts"] if v["property"] == "C01"), p
+
+
+# variant sets under which a run is still a behaviour the Recommendation allows
+AMBIGUITY_SETS = [("A1prose",), ("A4doc",), ("A1prose", "A4doc")]
+# uSCXML's own conflict relation: accepted only as the root cause of a known finding
+STATIC_SETS = [("static",), ("static", "A1prose"), ("static", "A4doc"), ("static", "A1prose", "A4doc")]
+
+
+def classify_c01(result, engine):
+    """C01 verdicts of one engine -> (unexplained, ambiguous, static) lists of verdicts"""
+    workdir = result["workdir"]
+    vs = [v for v in result["verdicts"] if v["property"] == "C01" and v["exec"] == engine]
+    open_ids = set(v["case"] for v in vs)
+    explained = {}
+    for sets, label in ((AMBIGUITY_SETS, "ambiguity"), (STATIC_SETS, "static")):
+        for vset in sets:
+            if not open_ids:
+                break
+            still, _ = rejudge(workdir, engine, open_ids, vset, "_".join(vset))
+            for cid in open_ids - still:
+                explained[cid] = (label, vset)
+            open_ids = still
+    un, amb, sta = [], [], []
+    for v in vs:
+        e = explained.get(v["case"])
+        if e is None:
+            un.append(v)
+        elif e[0] == "ambiguity":
+            v["variant"] = list(e[1])
+            amb.append(v)
+        else:
+            v["variant"] = list(e[1])
+            sta.append(v)
+    return un, amb, sta
 
 
 def cached_campaign(tier, builder=build_interp_campaign, name="interp", **kw):
